@@ -814,7 +814,14 @@ FixRangeF(C, fs0, par, present, flt, rg, ext) ==
                     IF IsUnrec(n) /\ \E m \in DOMAIN C.cf[d] : <<d, m>> \in unrec /\ Unrec(m) = n
                     THEN [b |-> <<>>, mt |-> <<0, 0>>, sz |-> 0]            \* content of an .unrecoverable file is unspecified
                     ELSE IF <<d, n>> \in recov
-                    THEN [b |-> fo[d][n].b, mt |-> C.cf[d][n].mt, sz |-> C.cf[d][n].sz]
+                    THEN [b |-> fo[d][n].b,
+                          \* the recorded time stamp is not put back on a file whose inode number is recorded for ANOTHER file of the
+                          \* same size and time stamp (check.c:720-745): the next sync would take it for that file, moved
+                          mt |-> IF n \in DOMAIN fs[d] /\ "ino" \in DOMAIN fs[d][n]
+                                    /\ \E m \in DOMAIN C.cf[d] : m # n /\ "ino" \in DOMAIN C.cf[d][m] /\ C.cf[d][m].ino = fs[d][n].ino
+                                                                 /\ C.cf[d][m].sz = C.cf[d][n].sz /\ C.cf[d][m].mt = C.cf[d][n].mt
+                                 THEN AnyMt ELSE C.cf[d][n].mt,
+                          sz |-> C.cf[d][n].sz]
                     ELSE IF <<d, n>> \in partial
                          THEN LET top == Max({0} \cup fo[d][n].wr)
                                   nbl == Max({Len(fs[d][n].b), top})
